@@ -46,12 +46,13 @@ CLAIMED = {
          'Decides that connector and accepted side both set the segment limit from the path-MTU query, that the limit survives a move, that segments are cut at min(remaining, limit), that payload is never altered and retransmission re-sends whole packets, and that the UDP DF test is exactly option && total > mtu with a silent reported-as-sent discard. Behaviour for all MTU values at run time is not decided.', '4/C20'),
  'C17': ('static: forward abstract interpretation per function (linear forms over base symbols, per-symbol intervals refined by dominating guards, collected linear constraints) with sinks at subscripts, buffer/string/memcpy lengths, unsigned subtractions and pointer advances; plus a structural rule on the relay loops',
          'Decides that no client-controlled integer reaches an index, length, unsigned subtraction or pointer advance without being inside the extent for every admitted byte value (all socks_connection member functions, about 70 sinks), with completion byte counts bounded by the initiating read; and that each relay direction forwards the whole chunk with the composed write before re-reading into the same buffer. Reply codes, counter values and transparency at run time are not decided.', '4/C17'),
+ 'C18': ('static: relay/pipeline buffer-discipline rules (call idiom, linear-form agreement of memmove/count updates, single-writer guard), failure-edge reachability for the 503 paths, function-try-block rule, accept re-arm path rule',
+         'Decides only the structural clauses: origin->client relay forwards each chunk whole and re-reads from the write completion; the client->origin pipeline is appended within bounds, written from the front by one writer and popped by exactly the written bytes; failed resolve/connect answer 503 before anything reaches an origin; unparseable or non-absolute requests close the client; every teardown re-arms accept unless stopped. URI splitting, the rewritten request text and Host-header values are value-level and NOT decided.', '6 and 11.6/C18'),
 }
 
 NOT_YET = {}
 
 NOT_APPLICABLE = {
- 'C18': 'every clause is value-level (URI splitting, request rewriting, verbatim relay, 503 outcomes); the one shape-level candidate is schedule-dependent and would be a majority-vote heuristic. See DESIGN.md section 6.',
 }
 
 def main():
